@@ -350,7 +350,7 @@ def signature(stage, text, msgs, block):
 def javac_start(run, ex, files, quick):
     """submit one stage's files (one source tree) as the reference batch and, concurrently, a random sample file by file"""
     byf = {f["pkg"]: f for f in files}
-    nalone = 3 if quick else 24
+    nalone = 3 if quick else 12
     sample = run.rng.sample(sorted(byf), min(len(byf), nalone))
     return {"files": files, "byf": byf, "t0": time.time(), "nalone": nalone, "batch": ex.submit(compile_batch, files),
             "alone": {p: ex.submit(compile_batch, [byf[p]]) for p in sample}}
@@ -410,7 +410,7 @@ def javac_finish(run, st, job, quick):
         order = list(files)
         run.rng.shuffle(order)
         for k in (10, 100, 200):
-            part = order[:min(len(order), 4 * k if k < 100 else len(order))]
+            part = order[:min(len(order), 40 if k == 10 else 200)]      # 4 batches of 10, 2 of 100, 1 of 200
             batches = [part[i:i + k] for i in range(0, len(part), k)]
             t1 = time.time()
             with ThreadPoolExecutor(max_workers=6) as ex:
@@ -481,9 +481,10 @@ def check(run):
         "line + real analyze_compiler_output) == accepted, and == its verdict when compiled alone / in batches of other sizes. "
         "non-trivial = program with more than one top-level declaration; distinct by (seed, switches, stage)" % (MAX_DEPTH, CAP))
     run.cov["exhaustive"] = False
-    # thorough: 640 programs (40 per switch setting) fit the 30-minute budget on the shared machine (measured: 600 programs
-    # = 18 min of pipeline under load); C02_PROGRAMS=2400 runs the full calibration set of the design (about 75 min)
-    n = 60 if quick else int(os.environ.get("C02_PROGRAMS", "640"))
+    # thorough: 400 programs (25 per switch setting) fit the 30-minute budget on the shared machine (measured under load:
+    # 600 programs = 18-20 min of pipeline, javac about 1 s per file); C02_PROGRAMS=2400 runs the calibration set of the
+    # design (pipeline alone about 75 min)
+    n = 60 if quick else int(os.environ.get("C02_PROGRAMS", "400"))
     st = {"diffs": [], "unmodelled": [], "equal": 0, "rejections": [], "batch_diffs": []}
     specs = make_specs(run, n, quick)
     t0 = time.time()
@@ -510,18 +511,18 @@ def check(run):
         fs = [f for f in files if f["stage"] == stage]
         groups += [(fs[a:a + 400], quick or a > 0) for a in range(0, len(fs), 400)]
     t1 = time.time()
-    with ThreadPoolExecutor(max_workers=8 if quick else 4) as ex:
+    with ThreadPoolExecutor(max_workers=8 if quick else 6) as ex:
         if quick:       # the two stages side by side; the in-process re-use stream runs while javac works
             jobs = [(javac_start(run, ex, fs, q), q) for fs, q in groups if fs]
             real_history(run, st, 3)
             run.log("real translator re-use stream done (%.0fs)" % (time.time() - t1))
             for job, q in jobs:
                 javac_finish(run, st, job, q)
-        else:
+        else:           # all reference batches and single files are submitted at once (6 JVMs at a time)
+            jobs = [(javac_start(run, ex, fs, q), q) for fs, q in groups if fs]
             real_history(run, st, 6)
-            for fs, q in groups:
-                if fs:
-                    javac_finish(run, st, javac_start(run, ex, fs, q), q)
+            for job, q in jobs:
+                javac_finish(run, st, job, q)
     run.log("javac: %d files judged in batches, %d compiled alone as well (%.0fs)" % (
         len(files), run.cov.get("batch_comparisons", {}).get("alone", {}).get("files", 0), time.time() - t1))
     run.cov["javac_rejections"] = len(st["rejections"])
